@@ -796,6 +796,8 @@ func replayCrash(c *vf.Ctx, rw int, salt uint64, cc crashCtx) {
 	w.crashCase(rw, salt, cc, true)
 	if c.Violations() > 0 {
 		fmt.Println("REPLAY: the witness still violates")
+	} else if knownSeen > 0 {
+		fmt.Println("REPLAY: the witness still shows the known finding")
 	} else {
 		fmt.Println("REPLAY: the witness no longer violates (external kills land at a slightly different point each time)")
 	}
